@@ -44,6 +44,16 @@ CHECKS = {
         "Simulated error-free reads; tolerance 1e-9 relative; the shipped NA10860 ratio check is not in the quick tier.",
         "DESIGN.md 5/C07",
     ),
+    "C08": (
+        "exhaustive enumeration over all shipped databases x builds + Hypothesis-generated dual-build databases; sequence-level apply-in-RefSeq vs apply-in-genome oracle",
+        "Every variant of the 38 shipped databases in both builds (exhaustive) and of generated databases (all five variant kinds, either "
+        "strand per build, alignment gaps, repeat context) is applied as written to the RefSeq sequence and as loaded to the genome-oriented "
+        "reference; the oriented windows must be identical. Also: maps equal an independent reading of the alignment string and are mutually "
+        "inverse, lookup sequence orientation, RefSeq notation round trip, amino-acid effect of non-catalogued exonic substitutions against an "
+        "independent codon table, insertion flanks, the VCF-style variant handed to indelpost and the long-read equivalence keys.",
+        "Windows limited to one ungapped alignment block; indelpost anchoring clause on generated databases only.",
+        "DESIGN.md 5/C08",
+    ),
     "C10": (
         "recorded-stage recomputation on Hypothesis-generated noisy simulated samples (independent argmin/filter/carry-over) + chain invariants",
         "genotype() is run on simulated samples with fractional-copy noise layers (competing structures and major solutions), gap 0-0.3 and "
